@@ -176,6 +176,12 @@ def gen_data(r, thorough, want_months):
     else:
         obs = r.normal(size=(T, N)) * 1e3 + 273.15 + \
             10 * np.sin(np.arange(T) * 2 * np.pi / 12)[:, None]
+    # the numeric type the caller's field comes in (count data, packed or
+    # single-precision NetCDF fields); the library does not cast it
+    if style == 1:
+        obs = obs.astype(r.choice(["f8", "i2", "i4", "i8", "f4"]))
+    elif r.random() < 0.25:
+        obs = obs.astype(np.float32)
     return obs, time, lat.astype(float), lon.astype(float)
 
 
@@ -335,6 +341,13 @@ def observe(ctx, d, m, cls, kind, cid, case, climate, snap=None, prev=None):
     cycle = d.time_cycle
     scale = max(1.0, float(np.abs(view).max()))
     tol = 1e-12 * scale
+    if view.dtype == np.float32:
+        # means of a single-precision field are accumulated by NumPy in
+        # single precision: the accuracy the data type affords
+        tol = 64 * float(np.finfo(np.float32).eps) * scale
+        ctx.count("float32_observables")
+    elif view.dtype.kind in "iu":
+        ctx.count("integer_observables")
     with warnings.catch_warnings():
         warnings.simplefilter("ignore")
         okp, pi = ctx.call(d.phase_indices)
